@@ -279,6 +279,12 @@ func (ps *peerStore) PutSeeder(ih bittorrent.InfoHash, p bittorrent.Peer) error 
 		}
 	}
 
+	// A peer has a single role per swarm: if it was a leecher, it no longer is.
+	if _, ok := shard.swarms[ih].leechers[pk]; ok {
+		shard.numLeechers--
+		delete(shard.swarms[ih].leechers, pk)
+	}
+
 	// If this peer isn't already a seeder, update the stats for the swarm.
 	if _, ok := shard.swarms[ih].seeders[pk]; !ok {
 		shard.numSeeders++
@@ -341,6 +347,12 @@ func (ps *peerStore) PutLeecher(ih bittorrent.InfoHash, p bittorrent.Peer) error
 			seeders:  make(map[serializedPeer]int64),
 			leechers: make(map[serializedPeer]int64),
 		}
+	}
+
+	// A peer has a single role per swarm: if it was a seeder, it no longer is.
+	if _, ok := shard.swarms[ih].seeders[pk]; ok {
+		shard.numSeeders--
+		delete(shard.swarms[ih].seeders, pk)
 	}
 
 	// If this peer isn't already a leecher, update the stats for the swarm.
